@@ -209,7 +209,9 @@ func (f *Frame) execCall(instr *ssa.Call, cc *ssa.CallCommon, reach string, st *
 	w := f.eng.writesOf(f.ctx, callee)
 	f.eng.note("call without contract: results arbitrary, written heaps havocked: " + shortFuncName(FuncName(callee)))
 	before := st.clone()
+	f.havocCallee = callee
 	ns := f.havocState(st, w, "call")
+	f.havocCallee = nil
 	*st = *ns
 	if (w.All || len(w.Heaps) > 0) && f.eng.freshOnly(f.ctx, callee) {
 		// the callee writes only objects it allocates itself
@@ -385,7 +387,9 @@ func (f *Frame) applyContract(instr *ssa.Call, fc *FuncContract, callee *ssa.Fun
 			f.bail("contract %s modifies %q: not a pointer or slice", fc.Ref, m.Text)
 		}
 	}
+	f.havocCallee = callee
 	ns := f.havocState(st, w, "call")
+	f.havocCallee = nil
 	*st = *ns
 	if fc.NoFrame {
 		f.callFrame(cpos, "call "+shortFuncName(fc.Ref)+" (no frame)", w, nil, true, reach)
